@@ -63,7 +63,10 @@ def gen_scenario(rng, sid):
         b = world.gen_probe_buffer(rng, mods, max_probes=rng.randint(1, 4))
         for text, probes in rng.sample(BUILTIN_PROBES, rng.randint(1, 2)):
             b.add(text, probes)
-        pathed = rng.random() < 0.5
+        # Scripts that are alive at the same time and are queried again later must not share a path
+        # (nor both be path-less): jedi keeps ONE tree per path, which the next Script on that path
+        # re-parses in place - a precondition of use, not something to test here
+        pathed = True if mode == 'overlap' else rng.random() < 0.5
         rng.shuffle(b.probes)
         scripts.append({'sid': 's%d' % j, 'code': b.text, 'probes': b.probes,
                         'path': ('buf%d.py' % j) if pathed else None})
